@@ -9,7 +9,10 @@
         (firmware of every answering host is "1.2.3"), or a script
           script:d=<r|n|delay>:h=<ans>:v=<ans>:sv=<ans|n>:c=<ans>:id=<0|1>:k=<ans>:x=<ans>:xo=<0|1>:fin=<0|1>:hg=<t|->:chat=<t_t_..|->:p=<period|->
           <ans> = <delay>+ (positive answer) | <delay>- (negative answer) | - (none);  sv=n: no SET_PROTOCOL_VERSION
-        fc: the request goroutine closes the client after a failed Shutdown *)
+        fc: the request goroutine closes the client after a failed Shutdown
+   conf <cfg> {D:<cfg> | X | R}*      cfg = <subnets hex|->/<async>/<probe_s>/<port>/<max_s>
+        a history: start-up configuration, then deliveries (D), deliveries of another type (X), runs (R)
+        -> "inforce=<cfg> deadline=<ms|none> used=<cfg,..  oldest run first>" *)
 open Model
 
 let rec pos_of_int (n:int) : positive =
@@ -115,6 +118,20 @@ let () =
          Printf.printf "probed=%s reported=%s discovered=%s time=%s\n"
            (String.concat "," (List.map string_of_int probed)) (show rep) (show (discovered devs rep))
            (match run_time tm dl dm sport hosts work with None -> "never" | Some t -> string_of_int (int_of_n t))
+       | "conf" :: c0 :: evs ->
+         let cfg_of s = (match String.split_on_char '/' s with
+             | [sn; a; p; po; mx] -> { c_subnets = bytes_of_hex sn; c_async = n_of_int (int_of_string a); c_probe_s = n_of_int (int_of_string p);
+                                      c_port = n_of_int (int_of_string po); c_max_s = n_of_int (int_of_string mx) }
+             | _ -> failwith ("bad config " ^ s)) in
+         let show c = Printf.sprintf "%s/%d/%d/%d/%d" (hex_of_codes c.c_subnets) (int_of_n c.c_async) (int_of_n c.c_probe_s)
+             (int_of_n c.c_port) (int_of_n c.c_max_s) in
+         let ev_of s = if s = "X" then DeliverOther else if s = "R" then Discover
+           else if String.length s > 2 && String.sub s 0 2 = "D:" then Deliver (cfg_of (String.sub s 2 (String.length s - 2)))
+           else failwith ("bad event " ^ s) in
+         let st = crun (cfg_of c0) (List.map ev_of evs) in
+         Printf.printf "inforce=%s deadline=%s used=%s\n" (show st.in_force)
+           (match run_deadline st.in_force with None -> "none" | Some d -> string_of_int (int_of_n d))
+           (String.concat "," (List.rev_map show st.used))
        | [] -> ()
        | _ -> print_endline ("error: bad request: " ^ line))
     done
